@@ -35,7 +35,7 @@ CLAIMED = {
  "C14": dict(category="fault_enumeration", ref="5 (C14)",
    technique="deterministic simulation: whole app in a synctest bubble; complete enumeration of ingestion-worker release orders via content-keyed holds at a yield point, of preemption points at store-lock acquisitions (go/ast-instrumented store), and of bursts that find no live aggregation group",
    text="Every release order of the ingestion workers for bursts of 2 and 3 back-to-back updates (all refresh/resolve/re-fire sequences, 2/3/4/8 workers) is executed against the real app (API -> provider -> dispatcher -> group -> webhook); plus, for bursts of two, preemption of either worker at each of its first six store-lock acquisitions, plus bursts of 2-3 updates of an alert without a live group; sampled beyond (k=4..5, creation inside the burst). The oracle compares the group's copy (GET /alerts/groups updatedAt) and the following notifications with the last accepted submission. Enumeration is the right level: the schedule space at the one place where order can be lost is small and finite."),
- "C15": dict(category="exploration", ref="5 (C15)", technique=SIM + "; the virtual clock is placed on calendar boundaries (DST transitions of 25 IANA zones, month/year ends, 29 February) and a group flushes every 47-127 s for hours to days",
+ "C15": dict(category="exploration", ref="5 (C15)", technique=SIM + "; the virtual clock is placed on calendar boundaries (DST transitions of 25 IANA zones, month/year ends, 29 February) and a group flushes every 47-127 s for hours to days; sibling routes with identical matcher chains (same group keys) whose groups are collected at different times, attributed by receiver",
    text="Interval specifications generated around a focus instant go through the real config parser; every flush instant of a group that would otherwise always notify is judged by a reference calendar written from the documented field semantics: muted flushes must send nothing, others must notify, and GET /alerts/groups must report exactly the muting interval names of the last flush. A third of the DST runs sit on transitions at the first/last day of a month; a quarter of the runs have a second group that is destroyed and re-created while the maintenance sweep is suspended (its mute marker must survive). Only instants the simulated clock visits are judged (the all-instants sweep is a pure-function enumeration outside this technique)."),
  "C18": dict(category="exploration", ref="5 (C18)", technique=SIM + "; admission histories with unordered end times x provider GC instants; blocking response writers for the GET-concurrency probe",
    text="Per-name limit: counts of unexpired alerts per name after every POST, re-sends of admitted alerts, admission while room, refusal counter; silence count/size limits with rejected calls leaving state untouched; GET concurrency: `limit` GETs parked in flight, further GETs 503, POST unaffected, counter moved."),
